@@ -1057,6 +1057,22 @@ def c17_w3(ctx):
                             false_t = st_["otherwise"] if neg else (zero[0] if zero else None)
                             if true_t is not None and true_t != false_t and (true_t == b or true_t in dom.get(b, ())):
                                 good = True
+                            elif true_t is not None and true_t != false_t:
+                                # ... or through a verdict built per path (`Some(..)` only after the timer expired, `None`
+                                # otherwise): the site holds that verdict's variant, and every place that builds that
+                                # variant lies on the expired edge
+                                if fl is None:
+                                    fl = Flow(ctx.prog, ctx.mods, f, lambda k: False)
+                                ws = [dict(w) for w in fl.at_term(b)]
+                                cands = None
+                                for w in ws:
+                                    here = {(k[1], list(v[1])[0]) for k, v in w.items() if k[0] == "val" and re.match(r"^_\d+$", k[1]) and v[0] and len(v[1]) == 1 and isinstance(list(v[1])[0], str)}
+                                    cands = here if cands is None else (cands & here)
+                                for nm_, var_ in sorted(cands or ()):
+                                    l_ = int(nm_[1:])
+                                    defs_ = [d_ for d_ in f.defs(l_) if d_[0] == "assign" and d_[3]["k"] == "agg" and d_[3].get("variant") == var_]
+                                    if defs_ and all(true_t == d_[1] or true_t in dom.get(d_[1], ()) for d_ in defs_):
+                                        good = True
                 if good:
                     yield ok("C17-W3", key, at(f, t["span"]["line"]), "under timer.ack.timeout_occurred()")
                 else:
